@@ -52,6 +52,9 @@ def main():
         subprocess.run([sys.executable, os.path.join(VERIF, "tools", "rust2lean_text.py")], capture_output=True, env=env)
         subprocess.run([sys.executable, os.path.join(VERIF, "tools", "py2lean_style.py")], capture_output=True, env=env)
         subprocess.run([sys.executable, os.path.join(VERIF, "tools", "rust2lean_session.py")], capture_output=True, env=env)
+        # extract.py's outputs (constants, tables) and the harness' path dependency are rewritten by every check as well: put the
+        # committed text back so that nothing of the trial stays in the working tree (every check regenerates them anyway)
+        subprocess.run(["git", "-C", VERIF, "checkout", "--", "lean/Rawr/Generated", "harness/Cargo.toml"], capture_output=True)
     print(json.dumps({"patch": patch, "tier": tier, "caught_by": [p for p, v in out.items() if v["rc"] == 1], "results": out}))
     return 0
 if __name__ == "__main__":
